@@ -28,6 +28,10 @@ def run(ctx):
                       "only as the tokens parse_line makes of it (operators, quotes and several words inside the value "
                       "act) - never assigned or inserted as one ready-made word, on no path (a `simple value` shortcut "
                       "turns `alias su='sort|uniq'` into a command named sort|uniq)")
+    ctx.rule("R17-9", "every head-of-stage word that names an alias is replaced: the place where expand_alias records a "
+                      "replacement is guarded by exactly {head position, is_alias / get_alias_content of the word} (and the "
+                      "operator / xargs tests) - one more condition (a `being expanded` set, a length or a state test) "
+                      "leaves some uses of an alias unexpanded, e.g. `g $(g 1)`")
     ctx.rule("R17-8", "`alias` prints a definition in a form that recreates it: wherever the alias builtin wraps a value in a "
                       "fixed quote character (a format template `q{}q`), the choice of q depends on the value - the place is "
                       "dominated by a test of the value for a quote character.  `alias n='{}'` for every value turns "
@@ -46,6 +50,7 @@ def run(ctx):
         head_rule(ctx, crate, b)
         once_rule(ctx, crate, b)
         retokenized_rule(ctx, crate, b)
+        exact_guard_rule(ctx, crate, b)
         printed_form_rule(ctx, crate)
         table_rule(ctx, crate)
         res = etag.run_sites(ctx, "R17-1", crate, fn_filter=lambda p: p == "shell::expand_alias")
@@ -395,3 +400,43 @@ def printed_form_rule(ctx, crate):
                key="R17-8|%s|fixed-quote|%s" % (f.path, "single" if q == "'" else "double"), where=f.loc(bb), crate=crate.kind,
                detail=None if tested else "a value containing %s is printed as `alias n=%s..%s..%s`: fed back to the shell it "
                "defines a different value (the inner quotes are lost)" % (q, q, q, q))
+
+
+def exact_guard_rule(ctx, crate, b):
+    from .c02 import dom_facts
+    recs = []
+    for bb, t, c in b.calls():
+        if last_seg(c) == "push" and "Vec" in c:
+            a = b.call_args(bb)
+            if len(a) == 2:
+                v = strip_sites(a[1])
+                if v[0] == "agg" and v[1] == "tuple":
+                    recs.append(bb)
+    if not ctx.require(bool(recs), "R17-9", "R17-9|%s|record" % b.path, "no recorded replacement found in expand_alias", b.path):
+        return
+    flag = None
+    for l, n in b.names.items():
+        if n == "is_head" or (b.locals[l]["ty"] == "bool" and flag is None and "head" in (n or "")):
+            flag = l
+    extra = []
+    for bb in recs:
+        for a, v in dom_facts(b, bb):
+            a2 = strip_sites(a)
+            txt = render(a2)
+            if a2[0] == "discr" and ("Iter::next" in txt or "get_alias_content" in txt or "Shell::get(" in txt):
+                continue
+            if a2[0] in ("var", "param") and b.locals[a2[1]]["ty"] == "bool" and v is True:
+                continue                                        # the head-of-stage flag
+            if a2[0] == "call" and last_seg(a2[1]) in ("is_alias", "get_alias_content", "contains_key") and v is True and \
+                    "aliases" in txt or (a2[0] == "call" and last_seg(a2[1]) == "is_alias" and v is True):
+                continue
+            if a2[0] == "call" and last_seg(a2[1]) in ("eq", "ne", "is_empty") and any(
+                    mir.const_str(x) in ("|", "xargs", "") for x in mir.subexprs(a2)):
+                continue
+            if a2[0] == "call" and last_seg(a2[1]) == "is_empty":
+                continue                                        # tag test of the word
+            extra.append("%s = %s" % (txt[:70], v))
+    ctx.ob("R17-9", b.path, "a replacement is recorded under exactly: head position and the word names an alias", not extra,
+           key="R17-9|%s|replacement-guard" % b.path, where=b.loc(recs[0]), crate=crate.kind,
+           detail=None if not extra else "further condition(s) %s: some head-of-stage uses of an alias are left as they are "
+           "(`alias g=..; g $(g 1)` runs the inner g as a command named g)" % "; ".join(sorted(set(extra))[:3]))
